@@ -6,7 +6,7 @@ import unpackmodel
 from unpackmodel import recv_is_field, disclosure_array_of, find_elem, elem_refs, resolve_idx
 from common import guarded, success_edges, bool_switches, length_sets, fmt_lenset, string_compare_switches, neq_const_edges
 from vmodel import is_field
-from val import vals, peel, const_value, must, may, walk, vstr
+from val import vals, peel, const_value, const_or_some, must, may, walk, vstr
 import c03
 import c07
 
@@ -162,7 +162,7 @@ def e4(ctx, fx, U):
             good.append((bb, ft))
         if nm in ("eq", "ne") and len(c.kids) == 2:
             for (l, r) in ((c.kids[0], c.kids[1]), (c.kids[1], c.kids[0])):
-                if const_value(r) == "sha-256" and may(l, lambda x: x.kind == "call" and x.d["term"].get("name") in ("index", "get") and len(x.kids) > 1 and const_value(x.kids[1]) == "_sd_alg"
+                if const_or_some(r) == "sha-256" and may(l, lambda x: x.kind == "call" and x.d["term"].get("name") in ("index", "get") and len(x.kids) > 1 and const_value(x.kids[1]) == "_sd_alg"
                                                         and is_field(peel(x.kids[0]), "sd_jwt_payload")):
                     good.append((bb, tt) if nm == "eq" else (bb, ft))
     # closure form: get(payload, "_sd_alg").map(|alg| alg != "sha-256").unwrap_or(false) / map_or(false, ..) / is_some_and(..)
